@@ -437,7 +437,7 @@ def r_mypy(ck: Checker) -> None:
     ti = build(ck.prg.src)
     inlined = [m for m in ck.prg.modules.values() if getattr(m.tree, "ngosa_temps_inlined", 0)]
     if inlined and ti.errors:
-        from ..nform import normal_form
+        from ..nform import inline_condition_temps
 
         # a test moved into a temporary (`t = x is not None; if t:`) is the same program, but mypy does not narrow through
         # it: type-check the condition normal form of those modules instead (scratch copy, removed at once)
@@ -449,7 +449,7 @@ def r_mypy(ck: Checker) -> None:
             shutil.copytree(os.path.join(ck.prg.src, "ngo"), os.path.join(root, "ngo"), ignore=shutil.ignore_patterns("__pycache__"))
             for m in inlined:
                 with open(os.path.join(root, os.path.relpath(m.path, ck.prg.src)), "w", encoding="utf-8") as fh:
-                    fh.write(ast.unparse(normal_form(ast.parse(m.source))) + "\n")
+                    fh.write(ast.unparse(inline_condition_temps(ast.parse(m.source))) + "\n")
             alt = build(root, fresh=True)
         finally:
             shutil.rmtree(root, ignore_errors=True)
